@@ -54,6 +54,8 @@ structure MemOK (ns : NumSem) : Prop where
   storeRef : ∀ opcode fn m ea v m', lookupAssoc Gen.storeTable opcode = some fn → ns.storeS opcode m ea v = .val m' → ns.storeT fn m ea v = .val m'
   storeTrap : ∀ opcode fn m ea v t, lookupAssoc Gen.storeTable opcode = some fn → ns.storeS opcode m ea v = .trap t → ns.storeT fn m ea v = .trap t
   growTyped : ∀ m d, vtOf (ns.grow m d).2 = .i32
+  bulkRef : ∀ op m a b c m', ns.bulkS op m a b c = .val m' → ns.bulkT op m a b c = .val m'
+  bulkTrap : ∀ op m a b c t, ns.bulkS op m a b c = .trap t → ns.bulkT op m a b c = .trap t
 
 def JumpOK (lab : Label) (base : Nat) (stk stkB : List Val) (locB : Store) (σ σ' : MSt) : Prop :=
   σ'.store = locB ∧ SlotsBelow lab.height σ σ' ∧ stkB.take base = stk.take base ∧ lab.height ≤ stkB.length ∧
